@@ -176,6 +176,7 @@ class Interp:
         self.trace = trace
         self.stmt_hook = stmt_hook
         self.after_call = None
+        self.default_chooser = None     # fallback for conditions the rule's chooser does not decide (see scenario.py)
         self.call_stack = []
         self._modglobals = {}
 
@@ -204,9 +205,11 @@ class Interp:
         return bool(t)
 
     def decide(self, node, cond):
-        if self.chooser is None:
-            raise NeedChoice(node, cond)
-        r = self.chooser(self, node, cond)
+        r = None
+        if self.chooser is not None:
+            r = self.chooser(self, node, cond)
+        if r is None and self.default_chooser is not None:
+            r = self.default_chooser(self, node, cond)
         if r is None:
             raise NeedChoice(node, cond)
         return bool(r)
